@@ -323,11 +323,25 @@ inst!(c04_find_eb_4, eb_row, 4, 8);
 //@ harness: c04_lines_for_range_4
 //@ property: C04
 //@ obligation: H-C04-b
-//@ tier: quick
+//@ tier: thorough
 //@ encodes: BsUnit::{find_lines_for_range, find_place_by_pc, find_place_by_idx}
 //@ symbolic: 4 sorted rows with ties, a non-empty range [begin, end) starting at or above the first row
 //@ bounds: row count 4; unwind 8
 //@ oracle: the rows reported are consecutive table rows from the row covering `begin` to the row covering `end-1`; every row that starts strictly inside the range is among them
 //@ assumes: rows sorted; begin >= first row; begin < end
-//@ timeout: 1200
+//@ timeout: 2400
+//@ mem_gb: 30
 inst!(c04_lines_for_range_4, lines_for_range, 4, 8);
+
+//@ harness: c04_lines_for_range_3
+//@ property: C04
+//@ obligation: H-C04-b
+//@ tier: quick
+//@ encodes: BsUnit::{find_lines_for_range, find_place_by_pc, find_place_by_idx}
+//@ symbolic: 3 sorted rows with ties, a non-empty range [begin, end) starting at or above the first row
+//@ bounds: row count 3; unwind 8
+//@ oracle: as c04_lines_for_range_4
+//@ assumes: rows sorted; begin >= first row; begin < end
+//@ timeout: 1200
+//@ mem_gb: 20
+inst!(c04_lines_for_range_3, lines_for_range, 3, 8);
